@@ -600,6 +600,52 @@ func C04(c *fw.Ctx) {
 		}
 		rec2()
 	}
+	// closures over the variable of a loop header: a reader and a writer declared in the body of the loop
+	// (three loop forms: header declaration, header assignment to an outer variable, a while loop with its
+	// counter outside) are stored and called in the same iteration, in the next one, and after the loop
+	{
+		id, num := model.Id, model.Num
+		for form := 0; form < 3; form++ {
+			for mask := 0; mask < 16; mask++ {
+				if !c.Mine() {
+					continue
+				}
+				body := []*model.N{
+					model.Fun("rd", nil, model.Return(id("i"))),
+					model.Fun("wr", nil, model.ExprS(model.Asg("i", model.Bin("+", id("i"), num(10)))), model.Return(id("i"))),
+					model.ExprS(model.Asg("rs", model.CallN(model.BiAppend, id("rs"), id("rd")))),
+					model.ExprS(model.Asg("ws", model.CallN(model.BiAppend, id("ws"), id("wr")))),
+				}
+				if mask&1 != 0 {
+					body = append(body, model.Print(model.Bin("+", model.Str("same "), model.CallN("rd"))))
+				}
+				if mask&2 != 0 {
+					body = append(body, model.If(model.Bin(">", model.CallN(model.BiLen, id("rs")), num(1)), model.Block(model.Print(model.Bin("+", model.Str("earlier reader "), model.Call(model.Idx(id("rs"), num(0)))))), nil))
+				}
+				if mask&4 != 0 {
+					body = append(body, model.If(model.Bin("==", model.CallN(model.BiLen, id("ws")), num(2)), model.Block(model.Print(model.Bin("+", model.Str("earlier writer "), model.Call(model.Idx(id("ws"), num(0)))))), nil))
+				}
+				if mask&8 != 0 {
+					body = append(body, model.Var("loc", model.Bin("*", id("i"), num(2))), model.Fun("both", nil, model.Return(model.Bin("+", id("loc"), id("i")))), model.ExprS(model.Asg("rs", model.CallN(model.BiAppend, id("rs"), id("both")))))
+				}
+				prog := []*model.N{model.Var("rs", model.Arr()), model.Var("ws", model.Arr())}
+				step := model.Asg("i", model.Bin("+", id("i"), num(1)))
+				cond := model.Bin("<", id("i"), num(4))
+				switch form {
+				case 0:
+					prog = append(prog, model.For(model.Var("i", num(0)), cond, step, model.Block(body...)))
+				case 1:
+					prog = append(prog, model.Var("i", num(0)), model.For(model.ExprS(model.Asg("i", num(0))), cond, step, model.Block(body...)))
+				case 2:
+					prog = append(prog, model.Var("i", num(0)), model.While(cond, model.Block(append(body, model.ExprS(step))...)))
+				}
+				prog = append(prog, model.Print(model.CallN(model.BiLen, id("rs"))))
+				prog = append(prog, model.For(model.Var("k", num(0)), model.Bin("<", id("k"), model.CallN(model.BiLen, id("rs"))), model.Asg("k", model.Bin("+", id("k"), num(1))), model.Block(model.Print(model.Call(model.Idx(id("rs"), id("k")))))))
+				prog = append(prog, model.Print(model.Call(model.Idx(id("ws"), num(0)))), model.Print(model.Call(model.Idx(id("rs"), num(0)))), model.Print(model.Call(model.Idx(id("rs"), model.Bin("-", model.CallN(model.BiLen, id("rs")), num(1))))))
+				run(fmt.Sprintf("closure-over-header-variable|form%d", form), prog)
+			}
+		}
+	}
 	// closures over block scopes, loop variables, parameters; state shared by siblings only
 	if c.Mine() {
 		run("closure-block-scope", []*model.N{
